@@ -5,6 +5,8 @@ A plan applies to the next accepted connection:
     c2s_cut   = M     forward exactly M bytes of the client->server stream, then close both sides
     s2c_drop  = k     withhold the k-th (0-based) complete server->client frame entirely, deliver the others
     s2c_stall = k     deliver frames before the k-th, then deliver nothing more (connection stays open)
+Relay.mute_s2c = True withholds everything sent to the client from now on, on connections already open (replies lost on a
+connection that has been used successfully before).
 The relay records what it delivered (bytes and complete frames, decoded by vlib.refcodec framing).
 """
 from __future__ import annotations
@@ -24,6 +26,7 @@ class Relay:
         self.plans = []             # one per upcoming connection; empty => transparent
         self.records = []           # one per handled connection
         self.stop = False
+        self.mute_s2c = False       # live switch: while True, nothing is forwarded to the client on any connection (they stay open)
         self.thread = threading.Thread(target=self._accept, daemon=True)
         self.thread.start()
 
@@ -82,7 +85,7 @@ class Relay:
                     if not d:
                         break
                     rec['s2c_total_seen'] += len(d)
-                    if stalled:
+                    if stalled or self.mute_s2c:
                         continue
                     cut = plan.get('s2c_cut')
                     if cut is not None:
